@@ -13,7 +13,10 @@ META = {
         "regular bodies between the three recursion knots (query, logical expression, function call) by automata: every "
         "RFC-only divergence is reported with the innermost grammar rule, the symbol class and a shortest witness string "
         "(R1). PEG ordered-choice hazards: every pair of prefix-comparable alternatives must be in the reasoned table in the "
-        "listed order (R2). Typing: every well-typed call of the five functions is accepted by the function table (R3). Not "
+        "listed order, also with each recursion knot unfolded once, and no alternative may be derived as a whole by an earlier one "
+        "(R2). Typing: every well-typed call of the five functions is accepted by the function table (R3). No pest call limit (R4). "
+        "Every validator call site is a filter on the span of the rule whose text it sees (pair typing), text gates are compiled "
+        "to the texts they accept, and every other Err construction of the AST builder must be one a model reads (R5). Not "
         "decided: parsing time; greedy-repetition hazards (FIRST/FOLLOW disjointness was confirmed by reading, not checked); "
         "integer literals in comparisons beyond +-(2^53-1)."),
     "trusted_base": ["pest_meta 2.9.1 (grammar parser)", "A7 model of pest_generator 2.9.1's implicit whitespace", "spec/rfc9535.abnf (self-checked on 226 strings)",
@@ -44,7 +47,19 @@ def run(ctx, rep):
                     d["witness"], d["where"], k[1], k[2], (": " + G.hint(k)) if G.hint(k) else ""))
     rep.samples.extend({"rule": "C06-R1", "comparison": c["id"], "impl_states": c["impl_states"], "rfc_states": c["rfc_states"]} for c in res["engine"]["compare"] if not c["id"].startswith("np:"))
     rep.extra["filters_modelled"] = res["applied_filters"]
-    # R2
+    r2(ctx, rep, res)
+    # R3
+    from rules import c07
+    c07.typing(ctx, rep, only="C06-R3")
+    r4(ctx, rep)
+    r5(ctx, rep)
+
+
+def r2(ctx, rep, res=None):
+    """PEG ordered choice: prefix-comparable alternatives only in the reasoned order; no alternative shadowed as a whole"""
+    if res is None:
+        res = G.load(ctx)
+    where = os.path.relpath(ctx.grammar.path, facts.REPO)
     rep.rule("C06-R2", "PEG ordered choice does not lose sentences: prefix-comparable alternatives only in the reasoned table's order", floor=4)
     table = {(h["rule"], h["first"], h["second"]) for h in json.load(open(HAZ))["safe"]}
     meta = {m["id"]: m for m in res["overlap_meta"]}
@@ -59,10 +74,11 @@ def run(ctx, rep):
                   "in rule `%s` the alternative `%s` is tried before `%s` and both can match a prefix of one input (e.g. `%s`): the "
                   "earlier one shadows sentences that need the later one" % (key[0], key[1], key[2], GM.show_witness(o["witness"] or [])))
     rep.extra["choice_pairs_examined"] = npairs
-    # R3
-    from rules import c07
-    c07.typing(ctx, rep, only="C06-R3")
-    # R4: nothing bounds what the generated parser may consume
+    dead_alternatives(ctx, rep, "C06-R2")
+
+
+def r4(ctx, rep):
+    """nothing bounds what the generated parser may consume"""
     from vflib import census, thir as T
     rep.rule("C06-R4", "no budget on valid queries: the crate never sets pest's global knobs (set_call_limit, set_error_detail): a call "
              "limit makes long but valid queries fail with `call limit reached`")
@@ -79,3 +95,69 @@ def run(ctx, rep):
                             "`%s` is called in `%s`: with a call limit a valid query that needs more parser steps (a long union, many segments, "
                             "a large filter) is rejected" % (x["fn"], prog.owner_fn(p)))
     rep.ok("C06-R4", "knob-census", "-", "%d call sites examined" % n)
+
+
+
+def dead_alternatives(ctx, rep, rid, only_rule=None):
+    """an alternative that an earlier alternative derives as a whole is never chosen (recursion-aware: looks through the
+    knots, which the automata comparison treats as opaque symbols)"""
+    where = os.path.relpath(ctx.grammar.path, facts.REPO)
+    rep.control(rid, GM.dead_alternatives_control(), "a grammar with a shadowed alternative (a = b | c, b = \"!\"? ~ c ~ \" \"*) is reported")
+    dead = GM.dead_alternatives(ctx.grammar.rules)
+    nch = 0
+    for rname, r in ctx.grammar.rules.items():
+        if only_rule is None or rname == only_rule:
+            nch += len(GM._choice_nodes(r["expr"]))
+    for rname, first, second, path in dead:
+        if only_rule is not None and rname != only_rule:
+            continue
+        rep.bad(rid, "dead|%s|%s|%s" % (rname, first, second), where,
+                "in rule `%s` the alternative `%s` can never be chosen: the earlier alternative `%s` derives it as a whole (via %s), so every "
+                "text `%s` matches is taken by `%s` first and is handed to the AST builder as a `%s`" % (
+                    rname, second, first, " > ".join(path) or "itself", second, first, first))
+    rep.ok(rid, "dead-alternatives%s" % (":" + only_rule if only_rule else ""), where, "%d ordered choice(s) examined, %d shadowed alternative(s)" % (
+        nch, len([d for d in dead if only_rule is None or d[0] == only_rule])))
+
+
+def r5(ctx, rep):
+    """rejection census: every rejecting check of the AST builder is one that a model reads"""
+    from vflib.parsermodel import rejection_census, ParserModel
+    from rules import shared
+    from vflib.terms import Evaluator
+    prog = ctx.prog
+    rep.rule("C06-R5", "rejection census: every construction of Err in the AST builder is either the catch-all arm of a dispatch on the "
+             "rule kind, a validator recognised by its shape, or one of the checks that the grammar / typing comparison reads "
+             "(spec/reject_sites.json): a rejecting check that no model reads may reject valid queries", floor=8)
+    table = {e["fn"]: e for e in json.load(open(os.path.join(facts.VERIF, "spec", "reject_sites.json")))["sites"]}
+    sites, nbodies = rejection_census(prog)
+    pm = ParserModel(prog)
+    ev = Evaluator(prog)
+    shaped = {p for p, rs in pm.ctrl.items() if rs is not None} | set(shared.range_validators(prog, ev))
+    per = {}
+    nft = 0
+    for s in sites:
+        if s["kind"] == "fallthrough":
+            nft += 1
+            continue
+        o = s["owner"]
+        # a function nested in another one belongs to it
+        while "::" in o and o.rsplit("::", 1)[0] in prog.bodies:
+            o = o.rsplit("::", 1)[0]
+        if s["fn"] in shaped or s["owner"] in shaped:
+            rep.ok("C06-R5", "validator|%s" % shared.rk(prog, ev, s["fn"]), s["where"], "validator recognised by shape (modelled per call site)")
+            continue
+        per.setdefault(o, []).append(s)
+    for o, lst in sorted(per.items()):
+        exp = table.get(o)
+        if exp is None:
+            for s in lst:
+                rep.unrecognised("C06-R5", "%s|unlisted-check" % shared.rk(prog, ev, o), s["where"],
+                                 "`%s` rejects some of the texts the grammar accepted under a condition that no model reads: a valid "
+                                 "query may be refused here" % o)
+        elif len(lst) > exp["n"]:
+            rep.unrecognised("C06-R5", "%s|extra-check" % shared.rk(prog, ev, o), lst[-1]["where"],
+                             "`%s` holds %d rejecting checks, the models read %d (%s): an additional condition may refuse valid queries"
+                             % (o, len(lst), exp["n"], exp["model"]))
+        else:
+            rep.ok("C06-R5", "%s|checks" % o, lst[0]["where"], "%d rejecting check(s), all read by: %s" % (len(lst), exp["model"]))
+    rep.ok("C06-R5", "census", "-", "%d bodies walked, %d Err constructions (%d catch-all arms of rule dispatches)" % (nbodies, len(sites), nft))
